@@ -382,6 +382,32 @@ Proof.
   - intros E. injection E as -> ->. lia.
 Qed.
 
+(* C11: after any history of additions the reported length is the length of what pack writes,
+   and pack is a function of the state (repeatable) *)
+Lemma cds_len_after_history t tds r b :
+  cds_add_all t tds = Ok r -> cds_pack r = Ok b ->
+  len b = cds_len_packed r /\ cds_pack r = Ok b /\ len b = 7.
+Proof.
+  intros _ H. split; [exact (cds_len_tracks r b H)|]. split; [exact H|].
+  rewrite (cds_len_tracks r b H). reflexivity.
+Qed.
+
+(* a history of non-negative additions keeps the stamp valid and adds up the milliseconds *)
+Lemma cds_add_all_instant tds : forall t r,
+  cds_valid t -> Forall (fun x => let '(d, s, u) := x in td_valid d s u /\ 0 <= d) tds ->
+  cds_add_all t tds = Ok r ->
+  cds_valid r /\
+  cds_instant_ms r = cds_instant_ms t + fold_right (fun x acc => let '(d, s, u) := x in td_ms d s u + acc) 0 tds.
+Proof.
+  induction tds as [|[[d s] u] tds IH]; intros t r V F E.
+  - cbn in E. injection E as <-. cbn. split; [exact V|lia].
+  - cbn [cds_add_all] in E. inversion F as [|x l Hx F']; subst. cbv beta iota in Hx. destruct Hx as [Htd Hd].
+    destruct (cds_add t d s u) as [t'|e] eqn:A; cbn [bind] in E; [|discriminate].
+    destruct (cds_add_instant t d s u t' V Htd Hd A) as [V' I'].
+    destruct (IH t' r V' F' E) as [Vr Ir]. split; [exact Vr|].
+    cbn [fold_right]. lia.
+Qed.
+
 (* non-vacuity *)
 Lemma cds_valid_example : cds_valid {| cdays := 65535; cms := 86399999 |}.
 Proof. unfold cds_valid; cbn. lia. Qed.
